@@ -9,6 +9,7 @@ pub mod hist;
 pub mod history;
 pub mod jsondelta;
 pub mod ops;
+pub mod outputs;
 pub mod rtrsrv;
 pub mod sched;
 pub mod server;
@@ -40,6 +41,8 @@ pub fn all() -> Vec<&'static Check> {
         &jsondelta::C18,
         &rtrsrv::C19,
         &validity::C20,
+        &outputs::C21,
+        &outputs::C22,
         &cache::C26,
         &cache::C27,
         &cache::C28,
